@@ -491,27 +491,36 @@ class GroupDriver(explore.Driver):
         sy = {n: (sorted(o._used_groups), o._computed_members) for n, o in d["_systems"].items()}
         return explore.fingerprint(grp, sy, d.get("_base_units_cache"), d.get("_default_system_name"), sorted(d["_units"]))
 
+    def outcome_oracle(self, acc, s, hist, outs):
+        """the last event's own answer: nothing hangs, cyclic attempts raise ValueError, a query that names a system
+        answers like a fresh registry — checked on every transition, whether or not the state is new"""
+        case = {"history": [list(e) for e in hist], "outcomes": outs}
+        last = hist[-1]
+        o = outs[-1]
+        if o == ["hang"]:
+            s.hung = True
+            acc.violation(["group-edit", last[0], "does-not-terminate", ""], case, "termination", "no answer within 3 s")
+            return
+        if last[0] == "qsys":
+            # system=None means "the default system": the one the history has set
+            key = ("qsys",) + tuple(last[1:]) + ((s.system,) if last[2] is None else ())
+            if key not in self._base_ref:
+                f = regs.tiny(TLINES, non_int_type="Fraction")
+                if last[2] is None:
+                    f.default_system = s.system
+                self._base_ref[key] = call(lambda: (lambda fu: [str(fu[0]), sorted(dict(fu[1]._units))])(f.get_base_units(last[1], system=last[2])))
+            acc.ev()
+            if o != self._base_ref[key]:
+                acc.violation(["named-system", "get_base_units(system=)", "differs-from-fresh-registry", "after-" + (hist[-2][0] if len(hist) > 1 else "init")], case, self._base_ref[key], o)
+        if last[0] in ("add_groups", "add_groups2") and o[1] == "cyclic" and o[0] != "ValueError":
+            acc.violation(["group-edit", "add_groups", "cyclic-relationship-not-refused", "self" if last[1] == last[2] else "indirect"], case, "ValueError", o[0])
+
     def oracle(self, acc, s, hist, outs):
         r = s.reg
         case = {"history": [list(e) for e in hist], "outcomes": outs}
         last = hist[-1] if hist else ("init",)
-        # cyclic attempts raise ValueError and change nothing; nothing hangs
-        if hist:
-            o = outs[-1]
-            if o == ["hang"]:
-                s.hung = True
-                acc.violation(["group-edit", last[0], "does-not-terminate", ""], case, "termination", "no answer within 3 s")
-                return
-            if last[0] == "qsys":
-                key = ("qsys",) + tuple(last[1:])
-                if key not in self._base_ref:
-                    f = regs.tiny(TLINES, non_int_type="Fraction")
-                    self._base_ref[key] = call(lambda: (lambda fu: [str(fu[0]), sorted(dict(fu[1]._units))])(f.get_base_units(last[1], system=last[2])))
-                acc.ev()
-                if o != self._base_ref[key]:
-                    acc.violation(["named-system", "get_base_units(system=)", "differs-from-fresh-registry", "after-" + (hist[-2][0] if len(hist) > 1 else "init")], case, self._base_ref[key], o)
-            if last[0] == "add_groups" and o[1] == "cyclic" and o[0] != "ValueError":
-                acc.violation(["group-edit", "add_groups", "cyclic-relationship-not-refused", "self" if last[1] == last[2] else "indirect"], case, "ValueError", o[0])
+        if getattr(s, "hung", False):
+            return
         signal.signal(signal.SIGVTALRM, _alarm)
         signal.setitimer(signal.ITIMER_VIRTUAL, 5)
         try:
